@@ -283,10 +283,13 @@ theorem parseR6rsChar_inv {fuel : Nat} : Inv I (parseR6rsChar fuel) := by
 theorem asChar_inv {n : Nat} : Inv I (asChar n) := by
   unfold asChar; inv_wp []
 
+theorem asEscapedChar_inv {n : Nat} : Inv I (asEscapedChar n) := by
+  unfold asEscapedChar; inv_wp [asChar_inv]
+
 theorem decodeElispCharEscape_inv {fuel : Nat} : Inv I (decodeElispCharEscape fuel) := by
   unfold decodeElispCharEscape
   inv_wp [nextOrEofChar_inv, nextOrEof_inv, decodeElispHexEscape_inv, decodeElispUniEscape_inv,
-    decodeElispOctalEscape_inv, asChar_inv, decodeUtf8Sequence_inv]
+    decodeElispOctalEscape_inv, asChar_inv, asEscapedChar_inv, decodeUtf8Sequence_inv]
 
 theorem parseElispChar_inv {fuel : Nat} : Inv I (parseElispChar fuel) := by
   unfold parseElispChar
